@@ -956,9 +956,18 @@ func (t *Terminal) decMode(m int, set bool, raw string) {
 			t.saveCursor()
 			t.onAlt = true
 			t.alt.grid = newGrid(t.Cols, t.Rows)
-		} else if !set && t.onAlt {
+			for r := range t.alt.grid {
+				t.alt.grid[r] = t.blankLine() // ClearScreen: current background
+			}
+		} else if !set {
+			// xterm: FromAlternate; CursorRestore - the cursor is restored
+			// even when the alternate screen was not active
 			t.onAlt = false
 			t.restoreCursor()
+		} else {
+			// already on the alternate screen: xterm saves the cursor and clears again
+			t.saveCursor()
+			t.alt.grid = newGrid(t.Cols, t.Rows)
 		}
 		t.Modes[m] = set
 		return
